@@ -8,7 +8,7 @@ from . import _sched as S
 from .C02 import WITNESSES
 
 PROP = "C04"
-GEN_REGIONS: List[str] = ["Sched", "Utils", "SchedGlue", "ConfigGlue"]
+GEN_REGIONS: List[str] = ["Sched", "Utils", "SchedGlue", "ConfigGlue", "GlobalState"]
 THEOREMS = {
     "SpecKitV.Lemmas.SchedLtf": ["ltfStep_mono", "ltfStep_logspaced", "ltfStep_K"],
     "SpecKitV.Lemmas.Starts": ["nsegRaw_eq", "capK_le", "startsEven_safe", "startsAccum_safe", "overlapMean_eq_closed", "overlapMean_accum_eq_closed"],
@@ -25,6 +25,9 @@ THEOREMS = {
     "SpecKitV.Props.SchedGlueGen": ["SchedGlue.gen_require_args_eq", "SchedGlue.gen_ltf_post_eq", "SchedGlue.gen_vec_post_glue_eq", "SchedGlue.gen_new_post_glue_eq", "SchedGlue.gen_ltf_plan_eq_model", "SchedGlue.gen_vec_plan_eq_model", "SchedGlue.gen_new_plan_eq_model", "SchedGlue.gen_lpsd_forward", "SchedGlue.gen_lpsd_plan_eq_ltf", "SchedGlue.gen_lpsd_plan_eq_model", "SchedGlue.gen_plan_missing_key", "SchedGlue.gen_lpsd_missing_key", "SchedGlue.planDict_keys", "SchedGlue.gen_plan_wiring", "SchedGlue.planDict_overlap", "SchedGlue.gen_ltf_plan_props", "SchedGlue.gen_lpsd_plan_props", "SchedGlue.gen_new_plan_props", "SchedGlue.gen_vec_plan_props", "SchedGlue.gen_plan_overlap_key"],
     "SpecKitV.Props.ConfigGlueGen": ["ConfigGlue.gen_window_eq_spec", "ConfigGlue.gen_window_explicit_olap", "ConfigGlue.gen_window_explicit_olap_ok",
                                      "ConfigGlue.gen_sched_eq_spec", "ConfigGlue.gen_sched_new_ltf", "ConfigGlue.gen_sched_callable", "ConfigGlue.gen_cg_plan_eq_model"],
+    # no state outlives a call in the files this property is anchored in (no module/class-level containers, memoisers, mutable defaults) and the
+    # decorators are exactly the audited ones (region GlobalState, re-scanned from the current source each run)
+    "SpecKitV.Props.GlobalStateGen": ["GlobalStateGen.gen_globalState_schedulers", "GlobalStateGen.gen_globalState_utils"],
 }
 CONTRACTS: List[str] = [
     'Python dict with string keys = association list, most recent binding first (Py.Dict in Np/SchedGlue.lean): d[k]=v (last write wins), d[k], k in d, dict(d) copies, d.update(e), dict(k=v,...)',
@@ -108,6 +111,195 @@ def check_cfg(P: C.Part, cfg, scheds=S.SCHEDS, count: bool = True, analyzer: boo
             pass
 
 
+# ------------------------------------------------------------------------------------------ forced count over a call sequence on ONE analyzer
+# "forcing a target bin count yields exactly that count or an error" holds for the request the analyzer was built with
+# (Jdes=<count>, force_target_nf=True), i.e. for EVERY plan()/compute() on that object: a retry after an exception (an `except` block, a
+# re-run notebook cell) has not changed the request.  Wave-7 miss C04g: the state written before the `solved_Jdes is None` guard made the
+# first call raise and the second return an ordinary un-forced plan (1047 bins where exactly 500 were demanded).  The class covered here:
+# exception paths (unreachable target below / above what the search interval [MIN_JDES, MAX_JDES] can give, an always-empty band, a
+# single-bin request, another analyzer's failing plan) leave the analyzer able only to raise again or to deliver exactly the count.
+FORCE_SEQS = {
+    "retry": ("plan", "plan", "plan", "compute", "plan"),
+    "compute-first": ("compute", "compute", "plan", "compute"),
+    "single-bin": ("single", "plan", "single", "plan", "compute", "single", "plan"),
+    "other-fails": ("other-empty-band", "plan", "other-unreachable", "plan", "compute", "plan"),
+    "retry-short": ("plan", "compute"),         # quick tier, vectorised scheduler: every failing call repeats a search of 1-3 s
+}
+FORCE_CORPUS = [
+    # the witnesses of C04g scaled to a short record: Lmin = N/10 makes every Jdes of the interval give >= 120 bins (60 unreachable);
+    # 1500 > the N/2 = 1000 bins the record can give
+    {"N": 2000, "fs": 1.0, "olap": 0.5, "bmin": 1.0, "Lmin": 200, "Kdes": 20, "scheduler": "ltf", "target": 60, "band": None, "win": "kaiser",
+     "seq": "retry", "klass": "too-small", "data_seed": 1},
+    {"N": 2000, "fs": 1.0, "olap": 0.5, "bmin": 1.0, "Lmin": 1, "Kdes": 20, "scheduler": "new_ltf", "target": 1500, "band": None, "win": "hann",
+     "seq": "compute-first", "klass": "too-large", "data_seed": 2},
+    {"N": 1200, "fs": 2.0, "olap": 0.5, "bmin": 1.0, "Lmin": 1, "Kdes": 10, "scheduler": "lpsd", "target": 3, "band": None, "win": "kaiser",
+     "seq": "single-bin", "klass": "too-small", "data_seed": 3},
+]
+
+
+def _force_kwargs(case):
+    kw = dict(olap=case["olap"], bmin=case["bmin"], Lmin=case["Lmin"], Kdes=case["Kdes"], scheduler=case["scheduler"], backend="numpy")
+    if case.get("win") == "hann":
+        kw["win"] = "hann"
+    return kw
+
+
+def run_force_sequence(case) -> tuple:
+    """(violations, outcomes): every plan()/compute() of the sequence on ONE analyzer built with Jdes=target, force_target_nf=True either
+    raises or delivers exactly `target` bins (integers compared exactly; nothing else is demanded: an error on every retry is fine, and so is
+    a different plan with the same count).  Steps that are not forced requests ("single": compute_single_bin on the same analyzer;
+    "other-…": a plan() of ANOTHER analyzer that fails) are only interleaved, never judged."""
+    import numpy as np
+    from speckit.analysis import SpectrumAnalyzer
+    N, fs, target, sched = case["N"], case["fs"], case["target"], case["scheduler"]
+    x = np.random.default_rng(case["data_seed"]).standard_normal(N)
+    kw = _force_kwargs(case)
+    band = None if case.get("band") is None else tuple(case["band"])
+    outcomes: List[str] = []
+    try:
+        an = SpectrumAnalyzer(x, fs, Jdes=target, force_target_nf=True, band=band, **kw)
+    except Exception as ex:  # noqa  (a refused request is an error, which the clause admits)
+        return [], ["ctor:" + type(ex).__name__]
+    for k, step in enumerate(FORCE_SEQS[case["seq"]]):
+        if step == "single":
+            try:
+                an.compute_single_bin(0.11 * fs, L=max(2, N // 7))
+                outcomes.append("single:ok")
+            except BaseException as ex:  # noqa
+                outcomes.append("single:" + type(ex).__name__)
+            continue
+        if step.startswith("other-"):
+            try:
+                if step == "other-empty-band":       # below the first frequency bmin*fs/N >= fs/N of every plan
+                    SpectrumAnalyzer(x, fs, Jdes=target, force_target_nf=True, band=(0.0, 0.25 * fs / N), **kw).plan()
+                else:                                # more bins than N/2 distinct frequencies
+                    SpectrumAnalyzer(x, fs, Jdes=N + 5, force_target_nf=True, **kw).plan()
+                outcomes.append(step + ":ok")
+            except BaseException as ex:  # noqa
+                outcomes.append(step + ":" + type(ex).__name__)
+            continue
+        try:
+            if step == "plan":
+                p = an.plan()
+                got = {"nf": int(p["nf"]), **{key: len(p[key]) for key in ("f", "L", "K", "D")}}
+            else:
+                r = an.compute()
+                got = {"nf": int(r.nf), "f": len(r.f), "XX": len(r.XX)}
+        except KeyboardInterrupt:
+            raise
+        except BaseException as ex:  # noqa  (SystemExit is how ltf_plan reports an empty plan)
+            outcomes.append(step + ":" + type(ex).__name__)
+            continue
+        outcomes.append(step + ":%d" % got["nf"])
+        if any(v != target for v in got.values()):
+            earlier = ", ".join(outcomes[:-1]) or "none"
+            after_error = any(o.split(":")[0] in ("plan", "compute") and not o.split(":")[1].isdigit() for o in outcomes[:-1])
+            sig = {"scheduler": sched, "subclaim": "forced-count-sequence", "step": step, "after_error": after_error}
+            return [C.Violation(what=f"{sched}: exactly {target} bins forced (force_target_nf=True), but call #{k + 1} ({step}()) on the same analyzer "
+                                     f"returned {got} without an error; earlier calls: {earlier}  case={case}",
+                                signature=sig,
+                                replay={"scheduler": sched, "subclaim": "forced-count-sequence", "case": case,
+                                        "cfg": {"N": N, "fs": fs, "olap": case["olap"], "bmin": case["bmin"], "Lmin": case["Lmin"], "Jdes": target,
+                                                "Kdes": case["Kdes"]}})], outcomes
+    return [], outcomes
+
+
+def gen_force_case(rng, sched: str, klass: str, seq: str, n_max: int):
+    """a forced request of the given class; the attainable range of counts [lo, hi] is read off the real scheduler at the ends of the search
+    interval (only to AIM the target: the predicate does not depend on it).  The vectorised scheduler needs ~1 s per call at Jdes ~ 1e6
+    (a 1e7-point grid), so its upper end is taken from the iterative one (the two agree there: all N/2 Fourier frequencies)."""
+    from speckit import utils as U
+    lo = hi = lo1 = None
+    for _ in range(8):
+        N = int(rng.integers(300, n_max + 1))
+        cfg = {"N": N, "fs": float(rng.choice([1.0, 10.0, 0.37])), "olap": float(rng.choice([0.5, 0.75, 0.0, 0.3])),
+               "bmin": float(rng.choice([1.0, 1.0, 2.0])), "Lmin": int(rng.choice([1, 1, 8, max(2, N // 10), max(2, N // 4)])),
+               "Kdes": int(rng.choice([2, 10, 50]))}
+        if klass == "too-small" and rng.random() < 0.5:
+            cfg["Lmin"] = max(2, N // int(rng.integers(4, 12)))          # nearly linear spacing: every Jdes gives many bins
+        try:
+            lo = int(S.sched_fn(sched)(**cfg, Jdes=int(U.MIN_JDES))["nf"])
+            lo1 = int(S.sched_fn(sched)(**cfg, Jdes=int(U.MIN_JDES) + 1)["nf"])
+            hi = int(S.sched_fn("ltf" if sched == "vectorized_ltf" else sched)(**S.eff(cfg, sched), Jdes=int(U.MAX_JDES))["nf"])
+        except BaseException:  # noqa
+            lo, lo1, hi = 50, 51, N // 2
+        if klass != "ends" or lo != lo1:             # lower end reachable ONLY at Jdes = MIN_JDES, the last probe of the search
+            break
+    if klass == "reachable":
+        target = int(rng.integers(lo + 1, max(lo + 2, min(hi, 4 * lo))))
+    elif klass == "too-small":
+        target = int(rng.choice([int(rng.integers(1, 6)), max(1, lo - 1), int(rng.integers(1, max(2, lo)))]))
+    elif klass == "too-large":
+        target = int(rng.choice([hi + 1, int(rng.integers(hi + 1, 4 * hi + 2)), N, N // 2 + 1]))
+    else:
+        target = int(rng.choice([lo, lo, hi, hi - 1, lo + 1]))
+    band = None
+    br = rng.random()
+    if br < 0.15:
+        band = [0.0, float(cfg["fs"])]                # every frequency of every plan: nothing is filtered, the count stays the forced one
+    elif br < 0.3:
+        band = [0.0, 0.25 * cfg["fs"] / N]            # below the first frequency of every plan: every call must raise (DESIGN §8.3 (i))
+    return dict(cfg, scheduler=sched, target=max(1, target), band=band, win=("kaiser", "hann")[int(rng.integers(0, 2))], seq=seq, klass=klass,
+                data_seed=int(rng.integers(0, 2 ** 31)))
+
+
+def force_sequences(ctx, P: C.Part, intensive: bool) -> None:
+    import time as _time
+    import numpy as np
+    rng = ctx.rng.spawn(1)[0]
+    t0 = _time.time()
+    cap = (60.0 if ctx.thorough else 9.0) * (2 if intensive else 1)
+    klasses = ["reachable", "too-small", "too-large", "ends"]
+    seqs = ["retry", "compute-first", "single-bin", "other-fails"]
+    cases = list(FORCE_CORPUS)
+    vec_cases: List[dict] = []
+    rounds = ctx.scale(1, 4) * (4 if intensive else 1)
+    off = int(rng.integers(0, 4))
+    for rd in range(rounds):
+        for ki, klass in enumerate(klasses):
+            for si, sched in enumerate(["ltf", "lpsd", "new_ltf"]):
+                cases.append(gen_force_case(rng, sched, klass, seqs[(ki + si + rd + off) % 4], ctx.scale(2000, 4000)))
+        # the vectorised scheduler repeats a search of 1-3 s (grids of up to 1e7 points) on every failing call, 10-30 s when the target is too
+        # large (all ~20 probes at Jdes > 5e5): quick tier = ONE failing request (too small: the cheapest failing search) retried once;
+        # thorough tier = every class, the too-large one retried once and only if the budget allows
+        if not ctx.thorough and rd > 0:
+            continue
+        if ctx.thorough:
+            vk = klasses[(rd + off) % 4]
+            vc = gen_force_case(rng, "vectorized_ltf", vk, "retry-short" if vk == "too-large" else ("retry", "compute-first")[rd % 2], 1200)
+        else:
+            vc = gen_force_case(rng, "vectorized_ltf", "too-small", "retry-short", 1200)
+            vc["band"] = None
+        vec_cases.append(vc)
+    cases += sorted(vec_cases, key=lambda c: c["klass"] == "too-large")      # last: the time cap cuts these first
+    for case in cases:
+        if case["scheduler"] == "vectorized_ltf" and not (ctx.thorough or intensive) and _time.time() - t0 > 5.0:
+            P.notes.append("forced-count sequences: vectorised case skipped (the iterative ones took %.1f s)" % (_time.time() - t0))
+            continue
+        if case["scheduler"] == "vectorized_ltf" and case["klass"] == "too-large" and ctx.time_left() < 300:
+            P.notes.append("forced-count sequences: vectorised too-large case skipped (two searches of ~20 probes at Jdes > 5e5 each)")
+            continue
+        if (_time.time() - t0 > cap and not (case["scheduler"] == "vectorized_ltf" and case["klass"] == "too-large")) or ctx.time_left() < 25:
+            P.notes.append("forced-count sequences stopped at the time cap")
+            break
+        if sum(1 for v in P.violations if v.signature.get("subclaim") == "forced-count-sequence") >= 4:
+            break
+        vs, outcomes = run_force_sequence(case)
+        P.cases += 1
+        judged = [o for o in outcomes if o.split(":")[0] in ("plan", "compute")]
+        raised = sum(1 for o in judged if not o.split(":")[1].isdigit())
+        P.hit("forced-seq-" + case["klass"] + ("-raises" if raised == len(judged) else "-delivers" if raised == 0 else "-mixed"))
+        P.hit("forced-seq-" + case["scheduler"])
+        P.hit("forced-seq-calls", len(judged))
+        if case["band"] is not None:
+            P.hit("forced-seq-band-" + ("empty" if case["band"][1] < case["fs"] / 2 else "full"))
+        P.nontrivial.add(("force-seq", case["scheduler"], case["klass"], case["seq"], case["N"], case["target"]))
+        if len(P.samples) < 6 and case["klass"] != "reachable":
+            P.sample({"op": "forced-count-sequence", "case": case, "outcomes": outcomes})
+        P.violations.extend(vs)
+    P.notes.append(f"forced-count sequences: {len(cases)} analyzers in {_time.time() - t0:.1f} s")
+
+
 def oracle(ctx, intensive: bool = False, hints=()) -> C.Part:
     P = C.Part()
     for w in WITNESSES + [D10]:
@@ -120,6 +312,9 @@ def oracle(ctx, intensive: bool = False, hints=()) -> C.Part:
     for h in hints:
         if isinstance(h, dict) and "cfg" in h:
             check_cfg(P, h["cfg"])
+    # forced count over a call SEQUENCE on one analyzer, failing calls included.  Before the random sweep, which in the thorough tier runs until
+    # the budget is used up; on a generator SPAWNED from ctx.rng (reproducible from the seed, and the streams below stay what they were)
+    force_sequences(ctx, P, intensive)
     n = ctx.scale(120, 2000) * (4 if intensive else 1)
     for i in range(n):
         if ctx.time_left() < 40 or len([v for v in P.violations if v.signature.get("subclaim") != "count-vs-iterative"]) >= 8:
@@ -168,6 +363,9 @@ def replay(ctx, data) -> C.Part:
             P.cases += 1
         elif r["subclaim"] == "forced-count":
             P.violations.extend(S.pred_C04_force(r["cfg"], r["scheduler"]))
+            P.cases += 1
+        elif r["subclaim"] == "forced-count-sequence":
+            P.violations.extend(run_force_sequence(r["case"])[0])
             P.cases += 1
         else:
             check_cfg(P, r["cfg"], scheds=[r["scheduler"]], count=(r["subclaim"] == "count-vs-iterative"), analyzer=(r.get("entry") == "analyzer"))
